@@ -209,3 +209,10 @@ Definition all_features : list feature :=
 Definition gates_check (tbl : list Z) (gs : list gate) : bool :=
   forallb (fun pf => (pf =? UNVERSIONED) ||
                      forallb (fun f => implb (accepts gs f pf) (expressible f pf)) all_features) tbl.
+
+(* a strategy condition: the feature is only compiled when `version <op> thr` holds — no exemption for the
+   unversioned format; otherwise it is refused with an ordinary JMC diagnostic (e.g. `default` / sparse labels
+   under the binary-search switch) *)
+Record sgate := mkSGate { sg_label : string; sg_feature : feature; sg_op : cmpop; sg_thr : Z }.
+Definition strategy_ok (sgs : list sgate) (f : feature) (pf : Z) : bool :=
+  forallb (fun g => cmp_eval (sg_op g) (sg_thr g) pf) (filter (fun g => feature_eqb (sg_feature g) f) sgs).
